@@ -48,6 +48,10 @@ class State:
     def assume(self, t):
         if z3.is_true(t):
             return
+        if z3.is_and(t):          # keep conjuncts separate: quantifier-free ones serve path pruning
+            for c in t.children():
+                self.assume(c)
+            return
         self.pc.append(t)
 
 
